@@ -533,7 +533,12 @@ func (o *objectGoReflect) reflectValue() reflect.Value {
 
 func (o *objectGoReflect) setReflectValue(v reflect.Value) {
 	o.fieldsValue = v
-	o.origValue = v
+	if o.origValue.Kind() == reflect.Ptr && v.Kind() != reflect.Ptr {
+		// the wrapper was created for a pointer to the value (toString / toJSON may be defined on the pointer type)
+		o.origValue = v.Addr()
+	} else {
+		o.origValue = v
+	}
 	o.methodsValue = v.Addr()
 }
 
